@@ -4,6 +4,7 @@ import (
 	"context"
 	"fmt"
 	"sort"
+	"strings"
 	"sync"
 	"testing"
 	"time"
@@ -16,20 +17,44 @@ import (
 
 // ---- case ----
 
+type c08PLim struct {
+	Period int  `json:"period"` // seconds
+	Quota  int  `json:"quota"`
+	Align  bool `json:"align,omitempty"`
+	Prefix int  `json:"prefix,omitempty"` // index into c08KeyAlphabet: part of the key prefix
+}
+
 type c08POp struct {
-	K   string `json:"k"`             // take | ctake | adv
-	Key int    `json:"key,omitempty"` // key index
-	N   int    `json:"n,omitempty"`   // ctake: number of concurrent callers
-	D   int    `json:"d,omitempty"`   // adv: milliseconds (server FastForward + virtual sleep)
+	K   string `json:"k"`             // take | ctake | rtake | adv
+	I   int    `json:"i,omitempty"`   // limiter instance
+	Key int    `json:"key,omitempty"` // index into the case's Keys
+	N   int    `json:"n,omitempty"`   // ctake: concurrent callers; rtake: takes one after the other
+	D   int64  `json:"d,omitempty"`   // adv: milliseconds (server FastForward + virtual sleep)
 	Ctx bool   `json:"ctx,omitempty"` // take: through TakeCtx(context.Background(), ...)
 }
 
 type c08PCase struct {
-	Period int      `json:"period"` // seconds
-	Quota  int      `json:"quota"`
-	Align  bool     `json:"align,omitempty"`
-	Keys   int      `json:"keys"`
-	Ops    []c08POp `json:"ops"`
+	Lims []c08PLim `json:"lims"`           // 1..2 PeriodLimit instances alive at once (own prefixes: independent)
+	Zone int       `json:"zone,omitempty"` // offset of the process' local time zone in seconds (Align)
+	Keys []int     `json:"keys"`           // indices into c08KeyAlphabet
+	Ops  []c08POp  `json:"ops"`
+}
+
+// c08KeyAlphabet: keys a caller can legally pass (user names, paths, e-mail
+// addresses, whatever identifies the limited party). Distinct entries must be
+// limited independently. The two long keys share their first 70 000 bytes.
+var c08KeyAlphabet = []string{
+	"k0", "k1", "K1", "k1 ", "", "%s%d%!v", "*?[a-z]\\", "{k1}", "k1}.tokens", "键🔑é",
+	"\xff\xfe\x80", "a\x00b", "line\r\nbreak", strings.Repeat("x", 70000) + "A", strings.Repeat("x", 70000) + "B",
+	"$(rm -rf) `x` ;|& ' \"",
+}
+
+func c08KeyLabel(i int) string {
+	k := c08KeyAlphabet[i%len(c08KeyAlphabet)]
+	if len(k) > 40 {
+		return fmt.Sprintf("%q...(%d bytes)", k[len(k)-4:], len(k))
+	}
+	return fmt.Sprintf("%q", k)
 }
 
 // ---- reference model, written from the statement ----
@@ -80,15 +105,15 @@ func (m *c08PModel) take(key int, nowMs, windowMs int64) (code int, fresh bool) 
 	}
 }
 
-// c08WindowSeconds: length of a window opened at caller time now. Without Align
-// it is the period; with Align the window ends at the next multiple of period
-// in local wall-clock seconds.
-func c08WindowSeconds(period int, align bool, now time.Time) int64 {
+// c08WindowSeconds: length of a window opened at caller second unix. Without
+// Align it is the period; with Align the window ends at the next multiple of
+// period in LOCAL wall-clock seconds (zone = offset of the local time zone: "5
+// text messages a day" ends at local midnight).
+func c08WindowSeconds(period int, align bool, unix int64, zone int) int64 {
 	if !align {
 		return int64(period)
 	}
-	_, off := now.Zone()
-	local := now.Unix() + int64(off)
+	local := unix + int64(zone)
 	return int64(period) - local%int64(period)
 }
 
@@ -98,82 +123,140 @@ func c08PeriodInterp(t *testing.T, c c08PCase) (v kit.Verdict) {
 	srv := c08GetServer()
 	srv.reset()
 	c08Seq++
-	prefix := fmt.Sprintf("c08p%d:", c08Seq)
 	var fail string
 	classes := map[string]bool{}
 	nontrivial := false
 	stalled := false
+	// process-wide setting read by Align: the local time zone
+	oldLocal := time.Local
+	if c.Zone != 0 {
+		time.Local = time.FixedZone("c08", c.Zone)
+		classes["local-zone-offset-nonzero"] = true
+	}
+	defer func() { time.Local = oldLocal }()
 	res := kit.Bubble(t, func() {
 		store := redis.New(srv.addr)
-		var opts []limit.PeriodOption
-		if c.Align {
-			opts = append(opts, limit.Align())
-			classes["align"] = true
+		alignOpts := []limit.PeriodOption{limit.Align()} // one option slice reused by every aligned instance
+		pls := make([]*limit.PeriodLimit, len(c.Lims))
+		models := make([]*c08PModel, len(c.Lims))
+		for i, l := range c.Lims {
+			prefix := fmt.Sprintf("c08p%d_%d:%s", c08Seq, i, c08KeyAlphabet[l.Prefix%len(c08KeyAlphabet)])
+			if l.Align {
+				pls[i] = limit.NewPeriodLimit(l.Period, l.Quota, store, prefix, alignOpts...)
+				classes["align"] = true
+			} else {
+				pls[i] = limit.NewPeriodLimit(l.Period, l.Quota, store, prefix)
+			}
+			models[i] = &c08PModel{quota: l.Quota, keys: map[int]*c08PKey{}}
+			if l.Period >= 60 {
+				classes["period>=1min"] = true
+			}
+			if l.Period >= 86400 {
+				classes["period>=1day"] = true
+			}
+			if l.Quota >= 100 {
+				classes["quota>=100"] = true
+			}
 		}
-		pl := limit.NewPeriodLimit(c.Period, c.Quota, store, prefix, opts...)
-		model := &c08PModel{quota: c.Quota, keys: map[int]*c08PKey{}}
+		if len(c.Lims) > 1 {
+			classes["two-instances-alive"] = true
+			if c.Lims[0].Align != c.Lims[1].Align {
+				classes["two-instances-differ-in-align"] = true
+			}
+		}
 		var serverMs int64
-		reached := map[int]bool{} // key reached its quota in some window
+		type ik struct{ i, k int }
+		reached := map[ik]bool{} // key reached its quota in some window
 		usedKeys := map[int]bool{}
-		keyName := func(i int) string { return fmt.Sprintf("k%d", i) }
+		keyName := func(k int) string { return c08KeyAlphabet[c.Keys[k%len(c.Keys)]%len(c08KeyAlphabet)] }
+		window := func(i int) int64 {
+			return c08WindowSeconds(c.Lims[i].Period, c.Lims[i].Align, time.Now().Unix(), c.Zone) * 1000
+		}
+		// one take through the real limiter; ok=false: stop (failure or stall)
+		take := func(i, k int, ctx bool) (int, error, bool) {
+			t0 := srv.realNow()
+			var got int
+			var err error
+			if ctx {
+				got, err = pls[i].TakeCtx(context.Background(), keyName(k))
+			} else {
+				got, err = pls[i].Take(keyName(k))
+			}
+			if srv.realNow().Sub(t0) > c08Stall {
+				stalled = true
+				return 0, nil, false
+			}
+			return got, err, true
+		}
+		note := func(i, k int, want int, fresh, wasReached bool) {
+			usedKeys[k] = true
+			key := ik{i, k}
+			if fresh && wasReached {
+				classes["restart-after-quota"] = true
+				nontrivial = true
+			}
+			if fresh {
+				reached[key] = false
+			}
+			if want >= c08HitQuota {
+				reached[key] = true
+			}
+			if want == c08OverQuota {
+				classes["over-quota"] = true
+			}
+		}
 
-		for i, o := range c.Ops {
-			what := fmt.Sprintf("op %d %+v (server t=%dms)", i, o, serverMs)
+		for n, o := range c.Ops {
+			if o.I >= len(c.Lims) {
+				continue
+			}
+			what := fmt.Sprintf("op %d {%s i:%d key:%s n:%d d:%d} (server t=%dms, limiter period %ds quota %d align %v, zone %+ds)",
+				n, o.K, o.I, c08KeyLabel(c.Keys[o.Key%len(c.Keys)]), o.N, o.D, serverMs, c.Lims[o.I].Period, c.Lims[o.I].Quota, c.Lims[o.I].Align, c.Zone)
+			model := models[o.I]
+			key := ik{o.I, o.Key}
 			switch o.K {
 			case "adv":
 				srv.fastForward(time.Duration(o.D) * time.Millisecond)
 				time.Sleep(time.Duration(o.D) * time.Millisecond)
-				serverMs += int64(o.D)
-			case "take":
-				win := c08WindowSeconds(c.Period, c.Align, time.Now()) * 1000
-				if k := model.keys[o.Key]; k != nil && k.count > 0 {
-					switch {
-					case serverMs == k.end:
-						classes["take-exactly-at-expiry"] = true
-					case serverMs == k.end-1:
-						classes["take-1ms-before-expiry"] = true
+				serverMs += o.D
+			case "take", "rtake":
+				reps := 1
+				if o.K == "rtake" {
+					reps = o.N
+					classes["many-takes-in-a-row"] = true
+				}
+				for r := 0; r < reps; r++ {
+					if k := model.keys[o.Key]; k != nil && k.count > 0 {
+						switch {
+						case serverMs == k.end:
+							classes["take-exactly-at-expiry"] = true
+						case serverMs == k.end-1:
+							classes["take-1ms-before-expiry"] = true
+						}
+					}
+					wasReached := reached[key]
+					want, fresh := model.take(o.Key, serverMs, window(o.I))
+					got, err, ok := take(o.I, o.Key, o.Ctx)
+					if !ok {
+						return
+					}
+					if err != nil {
+						fail = fmt.Sprintf("%s: take %d: Take error %v", what, r, err)
+						return
+					}
+					if got != want {
+						fail = fmt.Sprintf("%s: take %d: Take=%d, statement demands %d (1 Allowed, 2 HitQuota, 3 OverQuota; model count=%d window end=%dms)",
+							what, r, got, want, model.keys[o.Key].count, model.keys[o.Key].end)
+						return
+					}
+					note(o.I, o.Key, want, fresh, wasReached)
+					if model.keys[o.Key].count > 1000 {
+						classes["count>1000-in-one-window"] = true
 					}
 				}
-				wasReached := reached[o.Key]
-				want, fresh := model.take(o.Key, serverMs, win)
-				t0 := srv.realNow()
-				var got int
-				var err error
-				if o.Ctx {
-					got, err = pl.TakeCtx(context.Background(), keyName(o.Key))
-				} else {
-					got, err = pl.Take(keyName(o.Key))
-				}
-				if srv.realNow().Sub(t0) > c08Stall {
-					stalled = true
-					return
-				}
-				if err != nil {
-					fail = fmt.Sprintf("%s: Take error %v", what, err)
-					return
-				}
-				if got != want {
-					fail = fmt.Sprintf("%s: Take=%d, statement demands %d (1 Allowed, 2 HitQuota, 3 OverQuota; model count=%d window end=%dms)",
-						what, got, want, model.keys[o.Key].count, model.keys[o.Key].end)
-					return
-				}
-				usedKeys[o.Key] = true
-				if fresh && wasReached {
-					classes["restart-after-quota"] = true
-					nontrivial = true
-				}
-				if fresh {
-					reached[o.Key] = false
-				}
-				if want >= c08HitQuota {
-					reached[o.Key] = true
-				}
-				if want == c08OverQuota {
-					classes["over-quota"] = true
-				}
 			case "ctake":
-				win := c08WindowSeconds(c.Period, c.Align, time.Now()) * 1000
-				wasReached := reached[o.Key]
+				win := window(o.I)
+				wasReached := reached[key]
 				var want []int
 				anyFresh := false
 				for j := 0; j < o.N; j++ {
@@ -189,7 +272,7 @@ func c08PeriodInterp(t *testing.T, c c08PCase) (v kit.Verdict) {
 					wg.Add(1)
 					go func(j int) {
 						defer wg.Done()
-						got[j], errs[j] = pl.Take(keyName(o.Key))
+						got[j], errs[j] = pls[o.I].Take(keyName(o.Key))
 					}(j)
 				}
 				wg.Wait()
@@ -209,27 +292,19 @@ func c08PeriodInterp(t *testing.T, c c08PCase) (v kit.Verdict) {
 					fail = fmt.Sprintf("%s: concurrent takes returned codes %v, the sequential model yields the multiset %v", what, got, want)
 					return
 				}
-				usedKeys[o.Key] = true
-				if anyFresh && wasReached {
-					classes["restart-after-quota"] = true
-					nontrivial = true
-				}
-				if anyFresh {
-					reached[o.Key] = false
-				}
-				if want[len(want)-1] >= c08HitQuota {
-					reached[o.Key] = true
-					if want[0] == c08Allowed {
-						classes["concurrent-batch-crosses-quota"] = true
-					}
-				}
-				if want[len(want)-1] == c08OverQuota {
-					classes["over-quota"] = true
+				note(o.I, o.Key, want[len(want)-1], anyFresh, wasReached)
+				if want[len(want)-1] >= c08HitQuota && want[0] == c08Allowed {
+					classes["concurrent-batch-crosses-quota"] = true
 				}
 			}
 		}
 		if len(usedKeys) > 1 {
 			classes["multi-key"] = true
+		}
+		for k := range usedKeys {
+			if c.Keys[k%len(c.Keys)]%len(c08KeyAlphabet) >= 2 {
+				classes["key-outside-[a-z0-9]"] = true
+			}
 		}
 	})
 	v.NonTrivial = nontrivial
@@ -247,56 +322,105 @@ func c08PeriodInterp(t *testing.T, c c08PCase) (v kit.Verdict) {
 
 // ---- generator ----
 //
-// The generator carries its own copy of the bookkeeping (assuming UTC for the
-// Align phase) only to aim advances at window edges; the ops it emits are plain
-// data and the interpreter does not rely on the generator's bookkeeping.
+// The generator carries its own copy of the bookkeeping only to aim advances
+// at window edges; the ops it emits are plain data and the interpreter does
+// not rely on the generator's bookkeeping.
+
+var (
+	c08Periods = []int{60, 3600, 86400, 86400, 30 * 86400}
+	c08Zones   = []int{0, 0, 8 * 3600, -5 * 3600, 5*3600 + 1800, 5*3600 + 2700, -(9*3600 + 1800), 14 * 3600}
+)
 
 func c08PeriodGen(rt *rapid.T) c08PCase {
-	c := c08PCase{
-		Period: rapid.IntRange(1, 20).Draw(rt, "period"),
-		Quota:  rapid.IntRange(1, 10).Draw(rt, "quota"),
-		Align:  rapid.Bool().Draw(rt, "align"),
-		Keys:   rapid.IntRange(1, 4).Draw(rt, "keys"),
+	var c c08PCase
+	nl := rapid.SampledFrom([]int{1, 1, 2}).Draw(rt, "instances")
+	for i := 0; i < nl; i++ {
+		l := c08PLim{
+			Period: rapid.IntRange(1, 20).Draw(rt, "period"),
+			Quota:  rapid.IntRange(1, 10).Draw(rt, "quota"),
+			Align:  rapid.Bool().Draw(rt, "align"),
+			Prefix: rapid.IntRange(0, len(c08KeyAlphabet)-1).Draw(rt, "prefix"),
+		}
+		if rapid.IntRange(0, 3).Draw(rt, "long-period") == 0 {
+			l.Period = rapid.SampledFrom(c08Periods).Draw(rt, "period-l")
+		}
+		if rapid.IntRange(0, 11).Draw(rt, "big-quota") == 0 {
+			l.Quota = rapid.SampledFrom([]int{100, 255, 256, 257, 1000}).Draw(rt, "quota-l")
+		}
+		c.Lims = append(c.Lims, l)
+	}
+	c.Zone = rapid.SampledFrom(c08Zones).Draw(rt, "zone")
+	nk := rapid.IntRange(1, 4).Draw(rt, "keys")
+	seen := map[int]bool{}
+	for len(c.Keys) < nk {
+		k := rapid.IntRange(0, len(c08KeyAlphabet)-1).Draw(rt, "key-alpha")
+		if !seen[k] {
+			seen[k] = true
+			c.Keys = append(c.Keys, k)
+		}
 	}
 	const epoch = int64(946684800) // bubble start, 2000-01-01T00:00:00Z
-	model := &c08PModel{quota: c.Quota, keys: map[int]*c08PKey{}}
+	models := make([]*c08PModel, nl)
+	for i := range models {
+		models[i] = &c08PModel{quota: c.Lims[i].Quota, keys: map[int]*c08PKey{}}
+	}
 	var nowMs int64
-	win := func() int64 {
-		if !c.Align {
-			return int64(c.Period) * 1000
-		}
-		sec := epoch + nowMs/1000
-		return (int64(c.Period) - sec%int64(c.Period)) * 1000
+	win := func(i int) int64 {
+		return c08WindowSeconds(c.Lims[i].Period, c.Lims[i].Align, epoch+nowMs/1000, c.Zone) * 1000
 	}
 	if rapid.Bool().Draw(rt, "phase") {
-		d := rapid.IntRange(1, c.Period*1000+999).Draw(rt, "phase-ms")
+		d := int64(rapid.IntRange(1, c.Lims[0].Period*1000+999).Draw(rt, "phase-ms"))
 		c.Ops = append(c.Ops, c08POp{K: "adv", D: d})
-		nowMs += int64(d)
+		nowMs += d
 	}
 	n := rapid.IntRange(1, 50).Draw(rt, "nops")
+	rtakes := 0
 	for i := 0; i < n; i++ {
-		kind := rapid.SampledFrom([]string{"take", "take", "take", "take", "take", "ctake", "adv", "adv"}).Draw(rt, "kind")
+		kinds := []string{"take", "take", "take", "take", "take", "ctake", "adv", "adv"}
+		li := rapid.IntRange(0, nl-1).Draw(rt, "inst")
+		if c.Lims[li].Quota >= 100 && rtakes < 2 {
+			kinds = append(kinds, "rtake", "rtake", "rtake")
+		}
+		kind := rapid.SampledFrom(kinds).Draw(rt, "kind")
 		switch kind {
 		case "take":
-			key := rapid.IntRange(0, c.Keys-1).Draw(rt, "key")
-			model.take(key, nowMs, win())
-			c.Ops = append(c.Ops, c08POp{K: "take", Key: key, Ctx: rapid.IntRange(0, 4).Draw(rt, "ctx") == 0})
+			key := rapid.IntRange(0, nk-1).Draw(rt, "key")
+			models[li].take(key, nowMs, win(li))
+			c.Ops = append(c.Ops, c08POp{K: "take", I: li, Key: key, Ctx: rapid.IntRange(0, 4).Draw(rt, "ctx") == 0})
+		case "rtake":
+			// drive one key up to (and a little over) a large quota
+			key := rapid.IntRange(0, nk-1).Draw(rt, "key")
+			have := 0
+			if k := models[li].keys[key]; k != nil && k.count > 0 && nowMs < k.end {
+				have = k.count
+			}
+			r := c.Lims[li].Quota - have + rapid.IntRange(-2, 3).Draw(rt, "over")
+			if r < 1 {
+				r = 1
+			}
+			for j := 0; j < r; j++ {
+				models[li].take(key, nowMs, win(li))
+			}
+			rtakes++
+			c.Ops = append(c.Ops, c08POp{K: "rtake", I: li, Key: key, N: r})
 		case "ctake":
-			key := rapid.IntRange(0, c.Keys-1).Draw(rt, "key")
+			key := rapid.IntRange(0, nk-1).Draw(rt, "key")
 			k := rapid.IntRange(2, 12).Draw(rt, "callers")
 			for j := 0; j < k; j++ {
-				model.take(key, nowMs, win())
+				models[li].take(key, nowMs, win(li))
 			}
-			c.Ops = append(c.Ops, c08POp{K: "ctake", Key: key, N: k})
+			c.Ops = append(c.Ops, c08POp{K: "ctake", I: li, Key: key, N: k})
 		case "adv":
 			var d int64
 			switch rapid.SampledFrom([]string{"edge", "edge", "edge", "period", "small"}).Draw(rt, "adv-kind") {
 			case "edge":
-				// aim at the expiry of an open window of some key
+				// aim at the expiry of an open window of some key of some instance
 				var ends []int64
-				for ki := 0; ki < c.Keys; ki++ {
-					if k := model.keys[ki]; k != nil && k.count > 0 && k.end > nowMs {
-						ends = append(ends, k.end)
+				for _, m := range models {
+					for ki := 0; ki < nk; ki++ {
+						if k := m.keys[ki]; k != nil && k.count > 0 && k.end > nowMs {
+							ends = append(ends, k.end)
+						}
 					}
 				}
 				if len(ends) > 0 {
@@ -304,12 +428,12 @@ func c08PeriodGen(rt *rapid.T) c08PCase {
 					d = end - nowMs + int64(rapid.SampledFrom([]int{-1000, -1, 0, 0, 1, 1000}).Draw(rt, "delta"))
 				}
 			case "period":
-				d = int64(c.Period)*1000 + int64(rapid.SampledFrom([]int{-1000, 0, 1000}).Draw(rt, "delta"))
+				d = int64(c.Lims[li].Period)*1000 + int64(rapid.SampledFrom([]int{-1000, 0, 1000}).Draw(rt, "delta"))
 			}
 			if d <= 0 {
 				d = int64(rapid.IntRange(1, 1500).Draw(rt, "small-ms"))
 			}
-			c.Ops = append(c.Ops, c08POp{K: "adv", D: int(d)})
+			c.Ops = append(c.Ops, c08POp{K: "adv", D: d})
 			nowMs += d
 		}
 	}
@@ -318,6 +442,6 @@ func c08PeriodGen(rt *rapid.T) c08PCase {
 
 func TestVerif_C08_period(t *testing.T) {
 	c08GetServer()
-	kit.Run(t, "C08", "period", kit.Opts{Quick: 250, Thorough: 20000}, c08PeriodGen,
+	kit.Run(t, "C08", "period", kit.Opts{Quick: 200, Thorough: 12000}, c08PeriodGen,
 		func(c c08PCase) kit.Verdict { return c08PeriodInterp(t, c) })
 }
